@@ -95,9 +95,10 @@ static ares_status_t ares_search_next(ares_channel_t      *channel,
   status = ares_send_nolock(channel, NULL, 0, squery->dnsrec, search_callback,
                             squery, NULL);
 
-  if (status != ARES_EFORMERR) {
-    *skip_cleanup = ARES_TRUE;
-  }
+  /* ares_send_nolock() always invokes the callback, also for every failure
+   * it returns (including ARES_EFORMERR, e.g. when the candidate name cannot
+   * be written), so the search state has been taken care of by now. */
+  *skip_cleanup = ARES_TRUE;
 
   return status;
 }
